@@ -437,7 +437,16 @@ func (a *TCPAllocation) SetDeadline(t time.Time) error {
 // Any blocked Accept operations will be unblocked and return errors.
 // Any opened connection via Dial/Accept will be closed.
 func (a *TCPAllocation) Close() error {
-	a.closeOnce.Do(func() { close(a.closeCh) })
+	first := false
+	a.closeOnce.Do(func() {
+		close(a.closeCh)
+		first = true
+	})
+	if !first {
+		// As UDPConn.Close: what follows is for the allocation the client
+		// holds now, which may be a newer one.
+		return errAlreadyClosed
+	}
 	a.refreshAllocTimer.Stop()
 	a.refreshPermsTimer.Stop()
 
